@@ -351,4 +351,340 @@ theorem inv14_step {fp : FdlParams} (hfp : FpOk fp) {g g' : G} (hI : Inv fp g) (
             | some he => rw [hev] at hv; simp only [hlc']; exact hv), hok⟩
 
 
+/-! ## Order of the turns within one poll -/
+
+def occupied (slots : List (Option Peripheral)) (j : Nat) : Bool :=
+  match slots[j]? with
+  | some (some _) => true
+  | _ => false
+
+/-- Occupied slots in `[a, a + n)`, ascending. -/
+def occFrom (slots : List (Option Peripheral)) (a : Nat) : Nat → List Nat
+  | 0 => []
+  | n + 1 => if occupied slots a then a :: occFrom slots (a + 1) n else occFrom slots (a + 1) n
+
+/-- Occupied slots in `[a, b)`, ascending. -/
+def occIn (slots : List (Option Peripheral)) (a b : Nat) : List Nat := occFrom slots a (b - a)
+
+theorem occFrom_empty (slots : List (Option Peripheral)) : ∀ (n a : Nat),
+    (∀ k, a ≤ k → k < a + n → occupied slots k = false) → occFrom slots a n = [] := by
+  intro n
+  induction n with
+  | zero => intro a _; rfl
+  | succ n ih =>
+    intro a h
+    simp only [occFrom, h a (Nat.le_refl _) (by omega), Bool.false_eq_true, if_false]
+    exact ih (a + 1) (fun k h1 h2 => h k (by omega) (by omega))
+
+/-- `occIn a c = a :: occIn b c` when `a` is occupied, nothing is occupied strictly between `a` and `b`, `b ≤ c`. -/
+theorem occIn_cons (slots : List (Option Peripheral)) {a b c : Nat} (ha : occupied slots a = true) (hab : a < b)
+    (hbc : b ≤ c) (hgap : ∀ k, a < k → k < b → occupied slots k = false) :
+    occIn slots a c = a :: occIn slots b c := by
+  unfold occIn
+  have e : c - a = (c - (a + 1)) + 1 := by omega
+  rw [e]
+  simp only [occFrom, ha, if_true, List.cons.injEq, true_and]
+  -- skip the empty stretch (a, b)
+  have key : ∀ (d x : Nat), x + d = b → a < x → occFrom slots x (c - x) = occFrom slots b (c - b) := by
+    intro d
+    induction d with
+    | zero => intro x hx _; have : x = b := by omega
+              subst this; rfl
+    | succ d ih =>
+      intro x hx hax
+      have e2 : c - x = (c - (x + 1)) + 1 := by omega
+      rw [e2]
+      simp only [occFrom, hgap x hax (by omega), Bool.false_eq_true, if_false]
+      exact ih (x + 1) (by omega) (by omega)
+  exact key (b - (a + 1)) (a + 1) (by omega) (by omega)
+
+theorem occupied_set (slots : List (Option Peripheral)) {i : Nat} {p0 q : Peripheral}
+    (hi : slots[i]? = some (some p0)) (j : Nat) : occupied (slots.set i (some q)) j = occupied slots j := by
+  unfold occupied
+  rw [List.getElem?_set]
+  by_cases hij : i = j
+  · subst hij
+    have hl : i < slots.length := by
+      rcases Nat.lt_or_ge i slots.length with h | h
+      · exact h
+      · rw [List.getElem?_eq_none h] at hi; cases hi
+    simp only [hl, if_true, hi]
+  · simp [hij]
+
+theorem occFrom_congr {s1 s2 : List (Option Peripheral)} (h : ∀ j, occupied s1 j = occupied s2 j) :
+    ∀ (n a : Nat), occFrom s1 a n = occFrom s2 a n := by
+  intro n
+  induction n with
+  | zero => intro a; rfl
+  | succ n ih => intro a; simp only [occFrom, h a, ih (a + 1)]
+
+/-- Loop iterations that move on, with the slots whose `transmit_telegram` was invoked. -/
+inductive ReachV (fp : FdlParams) : Master → Master → List Nat → Prop
+  | refl (m : Master) : ReachV fp m m []
+  | step {m m' m'' : Master} {index i : Nat} {vs : List Nat} :
+      m.cycle = .dx index → m.visit fp index = .next i m' → ReachV fp m' m'' vs → ReachV fp m m'' (i :: vs)
+
+theorem txLoop_reachV (fp : FdlParams) : ∀ (fuel : Nat) (m : Master),
+    Master.txLoop fp fuel m = .hang ∨
+      ∃ m1 vs, ReachV fp m m1 vs ∧ final fp m1 = some (Master.txLoop fp fuel m) := by
+  intro fuel
+  induction fuel with
+  | zero => intro m; left; rfl
+  | succ fuel ih =>
+    intro m
+    unfold Master.txLoop
+    cases hc : m.cycle with
+    | completed => right; exact ⟨m, [], .refl m, by simp [final, hc]⟩
+    | dx index =>
+      simp only
+      cases hv : m.visit fp index with
+      | panic => right; exact ⟨m, [], .refl m, by simp [final, hc, hv]⟩
+      | empty m' => right; exact ⟨m, [], .refl m, by simp [final, hc, hv]⟩
+      | send i m' h pdu => right; exact ⟨m, [], .refl m, by simp [final, hc, hv]⟩
+      | event i m' => right; exact ⟨m, [], .refl m, by simp [final, hc, hv]⟩
+      | last i m' => right; exact ⟨m, [], .refl m, by simp [final, hc, hv]⟩
+      | next i m' =>
+        simp only
+        rcases ih m' with h | ⟨m1, vs, hr, hf⟩
+        · left; exact h
+        · right; exact ⟨m1, i :: vs, .step hc hv hr, hf⟩
+
+theorem curSlot_occupied {slots : List (Option Peripheral)} {index i : Nat} {p : Peripheral}
+    (h : curSlot slots index = some (i, p)) :
+    occupied slots i = true ∧ ∀ k, index ≤ k → k < i → occupied slots k = false := by
+  obtain ⟨_, _, h3, h4⟩ := curSlot_spec h
+  refine ⟨by simp [occupied, h3], ?_⟩
+  intro k h1 h2
+  simp [occupied, h4 k h1 h2]
+
+/-- The slots visited by the moving-on iterations: starting with the pointer at the occupied slot
+`o`, they are exactly the occupied slots from `o` up to (excluding) the slot `o1` the pointer ends
+at, ascending, none skipped, none twice; occupancy never changes. -/
+theorem reachV_order {fp : FdlParams} (hfp : FpOk fp) {m m1 : Master} {vs : List Nat}
+    (hr : ReachV fp m m1 vs) : MInv fp m → ∀ (index o : Nat) (p : Peripheral), m.cycle = .dx index →
+      curSlot m.slots index = some (o, p) →
+      (∀ j, occupied m1.slots j = occupied m.slots j) ∧
+      (vs = [] → m1 = m) ∧
+      (vs ≠ [] → ∃ o1 p1, m1.cycle = .dx o1 ∧ curSlot m1.slots o1 = some (o1, p1) ∧ o < o1 ∧
+        vs = occIn m.slots o o1) := by
+  induction hr with
+  | refl m =>
+    intro _ index o p _ _
+    exact ⟨fun _ => rfl, fun _ => rfl, fun h => absurd rfl h⟩
+  | @step m m' m'' index' i vs hc hv hrest ih =>
+    intro hM index o p hcy hcur
+    rw [hcy] at hc
+    simp only [Cycle.dx.injEq] at hc
+    subst hc
+    obtain ⟨p0, n, hcs, hns, _, hm', hM'⟩ := next_inv hfp hM hv
+    rw [hcur] at hcs
+    simp only [Option.some.injEq, Prod.mk.injEq] at hcs
+    obtain ⟨rfl, rfl⟩ := hcs
+    have hi := (curSlot_spec hcur).2.2.1
+    obtain ⟨hon, hnl, q, hcn⟩ := nextSlot_gt hcur hns
+    have hocc' : ∀ j, occupied m'.slots j = occupied m.slots j := by
+      intro j; rw [hm']; exact occupied_set m.slots hi j
+    -- the pointer of m' sits exactly at the occupied slot n
+    have hcn' : ∃ q', curSlot m'.slots n = some (n, q') := by
+      rw [hm']
+      simp only
+      rw [curSlot_set hi, hcn]
+      simp only [Option.map_some]
+      by_cases hno : n = o
+      · omega
+      · exact ⟨q, by simp [hno]⟩
+    obtain ⟨q', hcn''⟩ := hcn'
+    have hcy' : m'.cycle = .dx n := by rw [hm']
+    obtain ⟨hocc, hnil, hcons⟩ := ih hM' n n q' hcy' hcn''
+    have hgap : ∀ k, o < k → k < n → occupied m.slots k = false := by
+      -- nothing occupied strictly between the pointer slot and the next one
+      intro k h1 h2
+      unfold nextSlot at hns
+      rw [hcur] at hns
+      simp only at hns
+      cases hd : curSlot m.slots (o + 1) with
+      | none => rw [hd] at hns; cases hns
+      | some jq =>
+        rw [hd] at hns
+        simp only [Option.map_some, Option.some.injEq] at hns
+        have := (curSlot_occupied (p := jq.2) (i := jq.1) (by rw [hd])).2 k (by omega) (by omega)
+        exact this
+    have hoo := (curSlot_occupied hcur).1
+    refine ⟨fun j => (hocc j).trans (hocc' j), (by intro h; cases h), fun _ => ?_⟩
+    cases vs with
+    | nil =>
+      have := hnil rfl
+      subst this
+      refine ⟨n, q', hcy', hcn'', hon, ?_⟩
+      rw [occIn_cons m.slots hoo hon (Nat.le_refl _) hgap]
+      simp [occIn, occFrom]
+    | cons v vs' =>
+      obtain ⟨o1, p1, h1, h2, h3, h4⟩ := hcons (by simp)
+      refine ⟨o1, p1, h1, h2, by omega, ?_⟩
+      rw [occIn_cons m.slots hoo hon (by omega) hgap, h4]
+      simp only [occIn]
+      rw [occFrom_congr hocc']
+
+
+theorem occFrom_snoc (slots : List (Option Peripheral)) : ∀ (n a : Nat), occupied slots (a + n) = true →
+    occFrom slots a (n + 1) = occFrom slots a n ++ [a + n] := by
+  intro n
+  induction n with
+  | zero =>
+    intro a h
+    have h' : occupied slots a = true := by simpa using h
+    simp [occFrom, h']
+  | succ n ih =>
+    intro a h
+    have e : a + (n + 1) = (a + 1) + n := by omega
+    rw [e] at h
+    have := ih (a + 1) h
+    rw [occFrom, this]
+    by_cases ho : occupied slots a = true
+    · simp [occFrom, ho, e]
+    · simp [occFrom, ho, e]
+
+theorem occIn_snoc (slots : List (Option Peripheral)) {a b : Nat} (hab : a ≤ b) (hb : occupied slots b = true) :
+    occIn slots a (b + 1) = occIn slots a b ++ [b] := by
+  unfold occIn
+  have e1 : b + 1 - a = (b - a) + 1 := by omega
+  have e2 : b = a + (b - a) := by omega
+  rw [e1, occFrom_snoc slots (b - a) a (by rw [← e2]; exact hb), ← e2]
+
+theorem reachV_reach {fp : FdlParams} {m m1 : Master} {vs : List Nat} (h : ReachV fp m m1 vs) : Reach fp m m1 := by
+  induction h with
+  | refl => exact .refl _
+  | step h1 h2 _ ih => exact .step h1 h2 ih
+
+/-- The slots on which one run of the `transmit_telegram` loop invokes `Peripheral::transmit_telegram`:
+starting with the cycle index at the occupied slot `o`, they are exactly the occupied slots from `o`
+up to the slot `e` that ends the loop — ascending, none skipped, none twice — and the peripheral in
+`e` decides the outcome (telegram / Offline event / end of the cycle). -/
+theorem poll_turns {fp : FdlParams} (hfp : FpOk fp) {m : Master} (hM : MInv fp m) {index o : Nat} {p : Peripheral}
+    (hcy : m.cycle = .dx index) (hc : curSlot m.slots index = some (o, p)) :
+    ∃ m1 vs index1 e pe, ReachV fp m m1 vs ∧ m1.cycle = .dx index1 ∧ curSlot m1.slots index1 = some (e, pe) ∧
+      vs ++ [e] = occIn m.slots o (e + 1) ∧ (∀ j, occupied m1.slots j = occupied m.slots j) ∧
+      (match pe.transmit fp m1.op with
+       | .send p' h pdu =>
+         Master.txLoop fp (m.slots.length + 1) m =
+           .send { m1 with slots := m1.slots.set e (some p'), lastEvents := {} } h pdu
+       | .decline p' ev =>
+         Master.txLoop fp (m.slots.length + 1) m = .none (afterDecline m1 index1 e pe p' ev) ∧
+         (ev = none → nextSlot m1.slots index1 = none)
+       | .panic => False) := by
+  have hnh := txLoop_no_hang hfp (m.slots.length + 1) m hM (by omega) (by intro i _; omega)
+  rcases txLoop_reachV fp (m.slots.length + 1) m with hh | ⟨m1, vs, hr, hf⟩
+  · exact absurd hh hnh
+  · obtain ⟨hocc, hnil, hcons⟩ := reachV_order hfp hr hM index o p hcy hc
+    have hM1 : MInv fp m1 := by
+      -- ReachV projects to Reach
+      exact reach_minv hfp (reachV_reach hr) hM
+    -- pointer of m1
+    have hptr : ∃ index1 e pe, m1.cycle = .dx index1 ∧ curSlot m1.slots index1 = some (e, pe) ∧
+        vs ++ [e] = occIn m.slots o (e + 1) := by
+      cases hvs : vs with
+      | nil =>
+        have := hnil hvs; subst this
+        refine ⟨index, o, p, hcy, hc, ?_⟩
+        have hoo := (curSlot_occupied hc).1
+        simp [occIn, occFrom, hoo]
+      | cons v vs' =>
+        obtain ⟨o1, p1, h1, h2, h3, h4⟩ := hcons (by rw [hvs]; simp)
+        refine ⟨o1, o1, p1, h1, h2, ?_⟩
+        have ho1 : occupied m.slots o1 = true := by rw [← hocc]; exact (curSlot_occupied h2).1
+        rw [occIn_snoc m.slots (by omega) ho1, ← hvs, h4]
+    obtain ⟨index1, e, pe, hcy1, hc1, hvse⟩ := hptr
+    refine ⟨m1, vs, index1, e, pe, hr, hcy1, hc1, hvse, hocc, ?_⟩
+    unfold final at hf
+    rw [hcy1] at hf
+    simp only at hf
+    rw [visit_eq hM1, hc1] at hf
+    simp only at hf
+    cases ht : pe.transmit fp m1.op with
+    | panic =>
+      have hi := (curSlot_spec hc1).2.2.1
+      have := tx_spec hfp (by rw [hM1.op]; decide : m1.op ≠ .stop) (hM1.pinv e pe hi)
+      rw [ht] at this; cases this
+    | send p' h pdu =>
+      rw [ht] at hf
+      simp only [Option.some.injEq] at hf
+      simp only; exact hf.symm
+    | decline p' ev =>
+      rw [ht] at hf
+      simp only
+      cases ev with
+      | some ev' =>
+        simp only [Option.some.injEq] at hf
+        exact ⟨hf.symm, by intro h; cases h⟩
+      | none =>
+        simp only at hf
+        cases hn : nextSlot m1.slots index1 with
+        | some n => rw [hn] at hf; cases hf
+        | none =>
+          rw [hn] at hf
+          simp only [Option.some.injEq] at hf
+          exact ⟨hf.symm, fun _ => rfl⟩
+
+/-- When the loop ends without a telegram (the last peripheral visited declined, with or without
+an Offline event), `cycle_completed` is reported exactly when no occupied slot follows it — then the
+cycle index wraps to 0; otherwise the index moves to the next occupied slot.  (`afterDecline` is the
+master state the loop leaves; without event it only ends the loop when nothing follows, `poll_turns`.) -/
+theorem afterDecline_cycle (m1 : Master) (index1 e : Nat) (pe p' : Peripheral) (ev : Option PEvent)
+    (hend : ev = none → nextSlot m1.slots index1 = none) :
+    ((afterDecline m1 index1 e pe p' ev).lastEvents.cycleCompleted = true ↔ nextSlot m1.slots index1 = none) ∧
+    (nextSlot m1.slots index1 = none → (afterDecline m1 index1 e pe p' ev).cycle = .dx 0) ∧
+    (∀ n, nextSlot m1.slots index1 = some n → (afterDecline m1 index1 e pe p' ev).cycle = .dx n) := by
+  unfold afterDecline
+  cases hn : nextSlot m1.slots index1 with
+  | none => cases ev <;> simp
+  | some n =>
+    cases ev with
+    | none => rw [hend rfl] at hn; cases hn
+    | some e' => simp
+
+/-- `receive_reply` ends the turn of the addressed peripheral: the cycle index moves to the next
+occupied slot, or — if none follows — the cycle is completed and `cycle_completed` is reported. -/
+theorem afterReply_cycle (m : Master) (index i : Nat) (p p' : Peripheral) (ev : Option PEvent) :
+    ((afterReply m index i p p' ev).lastEvents.cycleCompleted = true ↔ nextSlot m.slots index = none) ∧
+    (nextSlot m.slots index = none → (afterReply m index i p p' ev).cycle = .completed) ∧
+    (∀ n, nextSlot m.slots index = some n → (afterReply m index i p p' ev).cycle = .dx n) := by
+  unfold afterReply
+  cases hn : nextSlot m.slots index <;> simp
+
+/-- `nextSlot` is the next occupied slot: nothing occupied lies between. -/
+theorem nextSlot_is_next {slots : List (Option Peripheral)} {index i n : Nat} {p : Peripheral}
+    (hc : curSlot slots index = some (i, p)) (hn : nextSlot slots index = some n) :
+    i < n ∧ occupied slots n = true ∧ ∀ k, i < k → k < n → occupied slots k = false := by
+  obtain ⟨h1, _, q, hq⟩ := nextSlot_gt hc hn
+  refine ⟨h1, (curSlot_occupied hq).1, ?_⟩
+  intro k hk1 hk2
+  unfold nextSlot at hn
+  rw [hc] at hn
+  simp only at hn
+  cases hd : curSlot slots (i + 1) with
+  | none => rw [hd] at hn; cases hn
+  | some jq =>
+    rw [hd] at hn
+    simp only [Option.map_some, Option.some.injEq] at hn
+    exact (curSlot_occupied (p := jq.2) (i := jq.1) (by rw [hd])).2 k (by omega) (by omega)
+
+/-- No occupied slot follows when `nextSlot` is `none`. -/
+theorem nextSlot_none_last {slots : List (Option Peripheral)} {index i : Nat} {p : Peripheral}
+    (hc : curSlot slots index = some (i, p)) (hn : nextSlot slots index = none) :
+    ∀ k, i < k → occupied slots k = false := by
+  intro k hk
+  unfold nextSlot at hn
+  rw [hc] at hn
+  simp only at hn
+  cases hd : curSlot slots (i + 1) with
+  | some jq => rw [hd] at hn; simp at hn
+  | none =>
+    by_cases hkl : k < slots.length
+    · have := firstFrom_none slots 0 (i + 1) hd k (Nat.zero_le _) (by omega) (by omega)
+      simp only [Nat.sub_zero] at this
+      simp [occupied, this]
+    · have : slots[k]? = none := List.getElem?_eq_none (by omega)
+      simp [occupied, this]
+
+
 end PV.Dp
